@@ -9,6 +9,7 @@ package goa
 //@   modifies nothing
 
 //@ func newError
+//@   params name timeout temporary fault format v
 //@   ensures fresh: fresh(result) && result != nil
 //@   ensures fields: result.Name == name && result.Timeout == timeout && result.Temporary == temporary && result.Fault == fault
 //@   ensures msg: result.Message == sprintf(format, backing(v), v.off, len(v))
@@ -16,6 +17,7 @@ package goa
 //@   modifies nothing
 
 //@ func asError
+//@   params err
 //@   requires err != nil
 //@   requires asSE(err) != 0 ==> allocated(ptr(*ServiceError, asSE(err)))
 //@   ensures found: asSE(err) != 0 ==> result == ptr(*ServiceError, asSE(err))
@@ -24,6 +26,7 @@ package goa
 //@   modifies nothing
 
 //@ func (*ServiceError).History
+//@   params e
 //@   requires e != nil
 //@   ensures kept: len(e.history) > 0 ==> result == e.history
 //@   ensures self: len(e.history) == 0 ==> len(result) == 1 && result[0] == e && fresh(result) && result.off == 0
@@ -32,6 +35,7 @@ package goa
 //@ const mergeSep = "; "
 
 //@ func MergeErrors
+//@   params err other
 //@   property C18
 //@   let both = err != nil && other != nil
 //@   let eS = asSE(err) != 0
@@ -81,12 +85,14 @@ package goa
 // ---- format and pattern validators (C17) ------------------------------------------------
 
 //@ func validateUUID
+//@   params uuid
 //@   ensures verdict: (result == nil) == (uuidOk(uuid) && uuidVariant(uuidVal(uuid)) == 1)
 //@   modifies nothing
 
 //@ macro invalidFormat(r, n) = r != nil && asSE(r) != 0 && ptr(*ServiceError, asSE(r)).Name == "invalid_format" && ptr(*ServiceError, asSE(r)).Field != nil && load(ptr(*ServiceError, asSE(r)).Field) == n
 
 //@ func ValidateFormat
+//@   params name val f
 //@   property C17
 //@   ensures* date: f == "date" ==> (result == nil) == timeOk("2006-01-02", val)
 //@   ensures* datetime: f == "date-time" ==> (result == nil) == timeOk("2006-01-02T15:04:05Z07:00", val)
@@ -112,6 +118,7 @@ package goa
 //@ guard knownPatterns read select(lockHeld, knownPatternsLock) >= 1 write select(lockHeld, knownPatternsLock) == 2 property C17 C20
 
 //@ func ValidatePattern
+//@   params name val p
 //@   property C17 C20
 //@   requires knownPatterns != nil && knownPatternsLock != nil
 //@   requires select(lockHeld, knownPatternsLock) == 0
